@@ -534,10 +534,13 @@ class PowerBoundsCalculator(MetricCalculator[SystemBounds]):
         """
         timestamp = _MIN_TIMESTAMP
         loop_timestamp = _MIN_TIMESTAMP
-        inclusion_bounds_lower = 0.0
-        inclusion_bounds_upper = 0.0
-        exclusion_bounds_lower = 0.0
-        exclusion_bounds_upper = 0.0
+        # Per battery-set contributions. They are added up with `sum()`, exactly like
+        # `BatteryManager._get_bounds` does, so that the bounds advertised here and the
+        # bounds enforced by the power distributor are the same floating point numbers.
+        inclusion_bounds_lower: list[float] = []
+        inclusion_bounds_upper: list[float] = []
+        exclusion_bounds_lower: list[float] = []
+        exclusion_bounds_upper: list[float] = []
 
         battery_sets = {
             self._bat_bats_map[battery_id] for battery_id in working_batteries
@@ -600,21 +603,29 @@ class PowerBoundsCalculator(MetricCalculator[SystemBounds]):
 
             timestamp = max(timestamp, loop_timestamp)
 
-            inclusion_bounds_lower += max(
-                aggregated_bat_bounds.inclusion_lower,
-                sum(bound.inclusion_lower for bound in inverter_bounds),
+            inclusion_bounds_lower.append(
+                max(
+                    aggregated_bat_bounds.inclusion_lower,
+                    sum(bound.inclusion_lower for bound in inverter_bounds),
+                )
             )
-            inclusion_bounds_upper += min(
-                aggregated_bat_bounds.inclusion_upper,
-                sum(bound.inclusion_upper for bound in inverter_bounds),
+            inclusion_bounds_upper.append(
+                min(
+                    aggregated_bat_bounds.inclusion_upper,
+                    sum(bound.inclusion_upper for bound in inverter_bounds),
+                )
             )
-            exclusion_bounds_lower += min(
-                aggregated_bat_bounds.exclusion_lower,
-                sum(bound.exclusion_lower for bound in inverter_bounds),
+            exclusion_bounds_lower.append(
+                min(
+                    aggregated_bat_bounds.exclusion_lower,
+                    sum(bound.exclusion_lower for bound in inverter_bounds),
+                )
             )
-            exclusion_bounds_upper += max(
-                aggregated_bat_bounds.exclusion_upper,
-                sum(bound.exclusion_upper for bound in inverter_bounds),
+            exclusion_bounds_upper.append(
+                max(
+                    aggregated_bat_bounds.exclusion_upper,
+                    sum(bound.exclusion_upper for bound in inverter_bounds),
+                )
             )
 
         if timestamp == _MIN_TIMESTAMP:
@@ -627,11 +638,11 @@ class PowerBoundsCalculator(MetricCalculator[SystemBounds]):
         return SystemBounds(
             timestamp=timestamp,
             inclusion_bounds=timeseries.Bounds(
-                Power.from_watts(inclusion_bounds_lower),
-                Power.from_watts(inclusion_bounds_upper),
+                Power.from_watts(sum(inclusion_bounds_lower)),
+                Power.from_watts(sum(inclusion_bounds_upper)),
             ),
             exclusion_bounds=timeseries.Bounds(
-                Power.from_watts(exclusion_bounds_lower),
-                Power.from_watts(exclusion_bounds_upper),
+                Power.from_watts(sum(exclusion_bounds_lower)),
+                Power.from_watts(sum(exclusion_bounds_upper)),
             ),
         )
